@@ -65,7 +65,7 @@ assert crc16_x25(b"123456789") == 0x906E and crc32c(b"123456789") == 0xE3069283
 NAMES = [b"node1", b"n", b"dtn", b"none", b"a-5", "knoten-äö".encode(), "€".encode(), b"x" * 23, b"y" * 24, b"group",
          b"home.net", b"1", b"node:1", "\U0001f680".encode()]
 SERVICES = [b"", b"in", b"incoming", b"~news", b"a/b/c", b"tele/sensors/temperature", b"123456", b"a-5", "dienst-ü".encode(),
-            b"z" * 240, b"-", b"1-2-3", b"%20"]
+            b"z" * 240, b"-", b"1-2-3", b"%20", "übung".encode(), "€".encode(), "~ü".encode(), "\U0001f680x".encode()]
 
 FLAG_BITS = [0x000001, 0x000002, 0x000004, 0x000020, 0x000040, 0x004000, 0x010000, 0x020000, 0x040000]
 IS_FRAGMENT = 0x1
